@@ -35,7 +35,7 @@ def inventory(prog, keys):
             elif t["k"] == "call" and t["callee"] is not None:
                 c = t["callee"]
                 for p in {c["path"], c["orig"]}:
-                    if p in prog.bodies:
+                    if prog.is_ws(p):
                         continue
                     if tt.may_panic(prog, p):
                         kind = "size-class" if p in tt.SIZE_CLASS else "may-panic"
